@@ -60,6 +60,18 @@ def gen_cases(seed, tier):
             blk('School', 'contains("ACADEMY")', 'Education', ['first', dyn, 'Last']),
             blk('Tagger', 'contains("ORDER")', '', [dyn])]},
             'txns': [tx('ACADEMY ORDER 2025', 'Wire')]})
+    # corpus 1c: {field.X} tags over the BUILT-IN pseudo fields (source, location, description, amount, date), next to a captured
+    # column of the same kind of name; and top-level variables that are read ONLY from a {..} tag
+    for dyn in ('{field.source}', '{field.location}', '{field.description}', '{field.amount}', '{field.date}', '{field.memo}',
+                '{ field.Source }', '{field.code}'):
+        cases.append({'kind': 'rules', 'ds': None, 'file': {'vars': [], 'tfs': [], 'rules': [
+            blk('School', 'contains("ACADEMY")', 'Education', ['first', dyn]), blk('Tagger', 'contains("FEES")', '', [dyn, 'Last'])]},
+            'txns': [tx('ACADEMY FEES', 'Wire', location='Seattle, WA'), tx('ACADEMY FEES', '', source=None)]})
+    for var, dyn in ((('proj', 'extract(description, "PROJ:(\\\\w+)")'), '{proj}'), (('src', 'lowercase(source)'), '{src + "-card"}'),
+                     (('Big', 'amount > 50'), '{"big" if big else "small"}'), (('kind', 'field.memo'), '{kind}')):
+        cases.append({'kind': 'rules', 'ds': None, 'file': {'vars': [var, ('used', 'amount > 1')], 'tfs': [], 'rules': [
+            blk('School', 'contains("ACADEMY") and used', 'Education', ['first', dyn]), blk('Tagger', 'contains("FEES")', '', [dyn])]},
+            'txns': [tx('ACADEMY FEES PROJ:X42', 'Wire')]})
     # corpus 2: statement rows identical in date/description/amount/location that differ only in a captured column, with
     # {field.memo} tags and tag-only rules conditioned on field.memo (.rules and legacy)
     rows = [tx('ACADEMY FEES', 'Wire'), tx('ACADEMY FEES', 'ACH-Batch7'), tx('ACADEMY FEES', 'Check', date='2025-01-06'),
